@@ -1108,3 +1108,21 @@ Section PackagedR.
     - split; [tauto | auto].
   Qed.
 End PackagedR.
+(* the split of any quantity of a table fertiliser (used for the organic fertiliser of automatic management,
+   whose quantity comes from the automan table and is not scaled by the fertilisation factor) *)
+Lemma c10_dueng_amounts (tab : list (frow R)) (q : R) name :
+  ((forall r, In r tab -> String.eqb (f_name r) name = false) /\ dueng tab name q fpay0 = fpay0)
+  \/
+  exists r, In r tab /\ String.eqb (f_name r) name = true /\
+    let gross := (q * f_ntot r * f_ndir r)%R in
+    let p := dueng tab name q fpay0 in
+    p_ndir p = (gross * (1 - f_nh4 r * f_loss r))%R /\
+    p_nh4n p = (gross * f_nh4 r * (1 - f_loss r))%R /\
+    p_nsas p = ((q * f_ntot r - p_ndir p) * f_nfst r)%R /\
+    p_nlas p = ((q * f_ntot r - p_ndir p) * f_nslo r)%R.
+Proof.
+  destruct (dueng_lookup name q tab fpay0) as [[H1 H2]|(r & Hin & Hn & H)].
+  - left. split; [exact H2 | exact H1].
+  - right. exists r. split; [exact Hin|]. split; [exact Hn|]. cbn zeta. rewrite H.
+    destruct (dueng_row_R q r) as (E1 & E2 & E3 & E4). cbn zeta in *. repeat split; assumption.
+Qed.
